@@ -36,6 +36,11 @@ CLAIMED = {
     design='5 C06',
     note='Trusted: RNG stub contract (NumPy/SciPy documentation: normal = loc + scale*eps, lognormal = exp(normal), truncnorm standardised bounds), closure of independent Gaussians under affine maps, E exp(a eps) = exp(a^2/2), z3, erf axioms. Replays draw 10^5 real samples. Known finding: ConstantAndMultiplicative sampler variance (pinned by a stable test).',
     technique='symbolic execution with a named-stream RNG stub + change-of-variables / moment identities decided by SMT; statistical replay of counter-examples'),
+ 'C07': dict(
+    text='Bounded symbolic verification of CovariatePopulationModel / LinearCovariateModel: for every underlying model, dimension, covariate count and selection within the bound and all real vartheta_0, beta, covariates and individual values, z3 decides that likelihood, individual parameters, samples and sensitivities equal those of the underlying model evaluated per individual at vartheta_i built from the published beta names; zero beta / zero covariates coincide with the underlying model.',
+    design='5 C07',
+    note='Trusted: z3, underlying population models as reference (C05), RNG stub. Bounds: n_dim <= 2, n_cov <= 2, n_ids <= 2, selections of <= 2 (3) pairs.',
+    technique='symbolic execution on z3 reals + names-driven oracle + SMT validity queries over enumerated selections'),
 }
 
 NOT_APPLICABLE = {
